@@ -125,6 +125,11 @@ class CacheRig:
     def probe(self):
         return []
 
+    def parked(self):
+        return []
+
+    pk = {"before": [], "released": [], "waiting": []}
+
 
 # ---- level 2: a real node (NSAP + NSE on vlans) fed with network-layer frames -----------------------------------
 class Sink(Client):
@@ -152,6 +157,8 @@ class NodeRig:
     """node under test: NetworkServiceAccessPoint + NetworkServiceElement with one port per initially attached
     network; on every LAN the router stations' frames are injected by a harness-owned vlan Node"""
     level = "node"
+    pk = {"before": [], "released": [], "waiting": []}
+    keep_parked = False       # ParkedNodeRig: probes that found no route stay parked in pending_nets across operations
 
     def __init__(self, attached0):
         vt.reset(0.0)
@@ -240,8 +247,10 @@ class NodeRig:
     def probe(self):
         """one application packet to a station on every destination network; what the node puts on the wire"""
         out = []
+        self.was_parked = []
         for d in sorted(DN):
             del self.log[:]
+            self.was_parked.append(1 if DN[d] in self.nsap.pending_nets else 0)
             ap = WhoIsRequest()
             ap.pduDestination = RemoteStation(DN[d], PROBE_MAC)
             ems = []
@@ -252,10 +261,15 @@ class NodeRig:
                 ems.append(["raised", 0, 0])        # the node could not send at all
             for lan, pdu in self.log:
                 ems.append(self.classify(lan, pdu, d))
-            self.nsap.pending_nets.clear()        # un-park the probe: the next probe starts from scratch
+            if not self.keep_parked:
+                self.nsap.pending_nets.clear()        # un-park the probe: the next probe starts from scratch
             out.append(ems)
         del self.log[:]
         return out
+
+    def parked(self):
+        """per destination network: was an earlier packet for it still parked when the last probe was sent"""
+        return self.was_parked
 
     def classify(self, lan, pdu, d):
         s = abs_int(SN_INV, lan.adapter.adapterNet)
@@ -299,11 +313,14 @@ def record(rigcls, attached0, ops):
                     exc = type(e).__name__
                 ev = dict(o, exc=exc, st=rig.proj())
                 ev["probe"] = rig.probe()
+                ev["parked"] = rig.parked()
+                ev["pk"] = rig.pk
+                ev.setdefault("via", "")
                 evs.append(ev)
     except Hang:
         HANGS[0] += 1
         last = evs[-1]["st"] if evs else {"routers": [], "path": [], "attached": list(attached0)}
-        evs.append(dict(ops[len(evs)], exc="Hang", st=last, probe=[], hang=True))
+        evs.append(dict(ops[len(evs)], exc="Hang", st=last, probe=[], parked=[], via="", pk=CacheRig.pk, hang=True))
     return evs
 
 
@@ -507,7 +524,7 @@ def tlc_validate(chk, traces, label):
         tf = os.path.join(wd, "traces.ndjson")
         with open(tf, "w") as f:
             for t in chunk:
-                evs = [{k: e[k] for k in ("op", "s", "a", "ds", "x", "exc", "st", "probe")} for e in t["evs"]]
+                evs = [{k: e[k] for k in ("op", "s", "a", "ds", "x", "exc", "st", "probe", "parked", "via", "pk")} for e in t["evs"]]
                 f.write(json.dumps({"tid": t["tid"], "attached0": t["attached0"], "evs": evs}, separators=(",", ":")) + "\n")
         defs, consts, _ = mc_cfg(TRACE_CFG, 0, empty=True)
         files, cfg = tlc.mc_wrapper("TRgen_rc", "Trace_RouteCache", defs, ["SPECIFICATION TSpec", "CHECK_DEADLOCK FALSE"], consts)
@@ -614,7 +631,31 @@ class Judge:
         return {"kind": "history", "level": t["level"], "attached0": t["attached0"], "ops": t["ops"][:upto]}
 
 
-RIGS = {"cache": CacheRig, "node": NodeRig}
+class ParkedNodeRig(NodeRig):
+    """the same node, but packets that found no route stay parked while the history goes on: an announcement that makes
+    the destination reachable must release them, and packets sent afterwards must follow the new knowledge"""
+    level = "node"
+    keep_parked = True
+
+    def __init__(self, attached0):
+        NodeRig.__init__(self, attached0)
+        self.probe()            # park one packet per (unknown) destination network before the history starts
+
+    def apply(self, o):
+        pend = self.nsap.pending_nets
+        before = [1 if DN[d] in pend else 0 for d in sorted(DN)]
+        del self.log[:]
+        try:
+            return NodeRig.apply(self, o)
+        finally:
+            rel = []
+            for d in sorted(DN):
+                cs = [self.classify(lan, pdu, d) for lan, pdu in self.log]
+                rel.append([c for c in cs if c[0] == "data"])
+            self.pk = {"before": before, "released": rel, "waiting": [1 if DN[d] in pend else 0 for d in sorted(DN)]}
+
+
+RIGS = {"cache": CacheRig, "node": NodeRig, "parked": ParkedNodeRig}
 TID = [0]
 
 
@@ -757,6 +798,7 @@ def main(tier, seed):
             if i % stride == 0:
                 nnode += 1
                 traces.append(make_trace("node", att0, with_via(ops, random.Random(seed * 1000003 + i)), meta))
+                traces.append(make_trace("parked", att0, with_via(ops, random.Random(seed * 1000033 + i)), meta))
         rinfo.append({"config": g.name, "graph_nodes": len(g.nodes), "graph_edges": g.nedges, "walks": len(walks),
                       "steps_on_cache": steps, "walks_on_node": nnode})
     chk.extra["replay"] = rinfo
@@ -772,6 +814,7 @@ def main(tier, seed):
         ops = random_history(rng, 300, att0, statuses=(0,))
         ttraces.append(make_trace("cache", att0, ops, {"kind": "T"}))
         ttraces.append(make_trace("node", att0, with_via(ops, random.Random(seed * 7919 + i)), {"kind": "T"}))
+        ttraces.append(make_trace("parked", att0, with_via(ops, random.Random(seed * 7927 + i)), {"kind": "T"}))
         if i % 2 == 0:      # the per-destination status argument exists on the method only
             ops2 = random_history(rng, 300, att0, statuses=(0, 1, 2))
             ttraces.append(make_trace("cache", att0, ops2, {"kind": "T"}))
@@ -796,7 +839,7 @@ def main(tier, seed):
         bytid = {t["tid"]: t for t in traces}
         traces2 = []
         for g in graphs:
-            for level in ("cache", "node"):
+            for level in ("cache", "node", "parked"):
                 judged, need = set(), set()
                 for t in traces:
                     if t.get("kind") == "R" and t["graph"] == g.name and t["level"] == level:
@@ -811,7 +854,7 @@ def main(tier, seed):
                 for i, (init, w) in enumerate(g.cover(need=need, avoid=avoid)):
                     att0 = sorted(g.nodes[init]["attached"])
                     ops = [g.op(v) for v in w]
-                    if level == "node":
+                    if level != "cache":
                         ops = with_via(ops, random.Random(seed * 1000003 + i))
                     traces2.append(make_trace(level, att0, ops, {"kind": "R", "graph": g.name, "init": init, "nodes": w}))
         for t in ttraces:
